@@ -289,6 +289,14 @@ theorem cut_sound : ∀ (s : Nat) (fs pre rest : List Frame) (fr : Frame) (n : N
 
 /-! ## What `verify` establishes -/
 
+/-- the local condition alone: every annotated position maps into annotated positions. This is all
+the preservation theorem `inv_step` needs (used for code that runs from a position other than 0:
+a top-level text appended to `mainfunc`). -/
+structure StepVerified (f : Fn) (ann : Ann) : Prop where
+  step : ∀ pc a i, annAt ann pc = some a → f.code[pc]? = some i →
+    a.wf = true ∧ ∃ succs, astep f pc i a = .ok succs ∧
+      ∀ p ∈ succs, ∃ t, annAt ann p.1 = some t ∧ p.2.le t = true
+
 structure Verified (f : Fn) (ann : Ann) : Prop where
   entry : ∃ t, annAt ann 0 = some t ∧ f.entry.le t = true
   step : ∀ pc a i, annAt ann pc = some a → f.code[pc]? = some i →
@@ -359,7 +367,7 @@ theorem target_bound {pc : Nat} {off : Int} {len t : Nat} (h : target pc off len
     omega
   · cases h
 
-theorem inv_step (f : Fn) (ann : Ann) (hv : Verified f ann) (D : List Cell) (S A : Nat)
+theorem inv_step_s (f : Fn) (ann : Ann) (hv : StepVerified f ann) (D : List Cell) (S A : Nat)
     (c c' : CState) (hinv : Inv ann D S A c) (hstep : CStep f c c') : Inv ann D S A c' := by
   obtain ⟨a, own, hann, hdata, hconc, hsc, haddr⟩ := hinv
   cases hstep with
@@ -698,6 +706,12 @@ theorem inv_step (f : Fn) (ann : Ann) (hv : Verified f ann) (D : List Cell) (S A
 
 /-! ## Executions -/
 
+theorem Verified.toStep {f : Fn} {ann : Ann} (hv : Verified f ann) : StepVerified f ann := ⟨hv.step⟩
+
+theorem inv_step (f : Fn) (ann : Ann) (hv : Verified f ann) (D : List Cell) (S A : Nat)
+    (c c' : CState) (hinv : Inv ann D S A c) (hstep : CStep f c c') : Inv ann D S A c' :=
+  inv_step_s f ann hv.toStep D S A c c' hinv hstep
+
 theorem inv_entry (f : Fn) (ann : Ann) (hv : Verified f ann) (D : List Cell) (S A : Nat) (c0 : CState)
     (h0 : c0.pc = 0) (hd : c0.data = List.replicate f.entryCount .val ++ D)
     (hs : c0.sc = S) (ha : c0.addr = A) : Inv ann D S A c0 :=
@@ -711,7 +725,7 @@ theorem inv_reach (f : Fn) (ann : Ann) (hv : Verified f ann) (D : List Cell) (S 
   | step c' c'' _ hstep ih => exact inv_step f ann hv D S A c' c'' ih hstep
 
 /-- At `ret`: exactly one value on top of the caller's stack, the caller's scopes. -/
-theorem inv_at_ret (f : Fn) (ann : Ann) (hv : Verified f ann) (D : List Cell) (S A : Nat) (c : CState)
+theorem inv_at_ret_s (f : Fn) (ann : Ann) (hv : StepVerified f ann) (D : List Cell) (S A : Nat) (c : CState)
     (hinv : Inv ann D S A c) (hret : AtRet f c) : c.data = .val :: D ∧ c.sc = S ∧ c.addr = A := by
   obtain ⟨a, own, hann, hdata, hconc, hsc, haddr⟩ := hinv
   obtain ⟨_, succs, hast, _⟩ := hv.step c.pc a (.ret false) hann hret
@@ -726,6 +740,10 @@ theorem inv_at_ret (f : Fn) (ann : Ann) (hv : Verified f ann) (D : List Cell) (S
 
 /-- At the end of the code: only a top-level text gets there, with one value — or none at all
 when the text is empty. -/
+theorem inv_at_ret (f : Fn) (ann : Ann) (hv : Verified f ann) (D : List Cell) (S A : Nat) (c : CState)
+    (hinv : Inv ann D S A c) (hret : AtRet f c) : c.data = .val :: D ∧ c.sc = S ∧ c.addr = A :=
+  inv_at_ret_s f ann hv.toStep D S A c hinv hret
+
 theorem inv_at_end (f : Fn) (ann : Ann) (hv : Verified f ann) (D : List Cell) (S A : Nat) (c : CState)
     (hinv : Inv ann D S A c) (hend : c.pc = f.code.length) :
     f.kind = .top ∧ c.sc = S ∧ c.addr = A ∧ (c.data = .val :: D ∨ (f.code = [] ∧ c.data = D)) := by
